@@ -9,7 +9,9 @@ from mcv.gen import akai as A
 
 UNKNOWN = ["REM x", 'PERFORMER "p"', "FLAGS DCP", "PREGAP 00:02:00", "ISRC X", "CATALOG 1",
            "REM TRACK 09 AUDIO", 'REM FILE "z" BINARY', "", "   ", "\t",
-           "rem x", 'Performer "p"', "flags dcp", 'Rem file "z" binary', "catalog 1", 'songwriter "s"', "Xyzzy 1 2 3"]
+           "rem x", 'Performer "p"', "flags dcp", 'Rem file "z" binary', "catalog 1", 'songwriter "s"', "Xyzzy 1 2 3",
+           # one-word lines (a keyword without arguments) and punctuation only
+           "REM", "rem", "FLAGS", "X", ";", '"']
 PADS = ["lead", "trail", "tab", "cr"]
 
 
@@ -221,7 +223,7 @@ class Check(CheckBase):
     title = "Cue sheets are read the same regardless of case, spacing and unknown lines"
     rule = ("24 canonical sheets (tracks 1..3 x INDEX lines {1,2} x TITLE {y,n} x {all AUDIO, first track data}) x all "
             "single transformations: 80 keyword-case combinations (3^4-1), padding {leading, trailing, tabs, CR} uniform "
-            "and on each single line, each of 18 blank/unknown lines (upper, lower and mixed case, one with an unheard-of keyword) at every admissible position (before FILE, anywhere "
+            "and on each single line, each of 24 blank/unknown lines (upper, lower and mixed case, one with an unheard-of keyword, six of ONE word or punctuation only) at every admissible position (before FILE, anywhere "
             "after the first TRACK line; blank lines also between FILE and the first TRACK); x line ending {LF, CRLF}; all PAIRS of single transformations (quick: sheets "
             "with <=2 tracks and every 5th pair; thorough: all); structure compared with the model; image-level (real "
             "files, class + ls text) for all single transformations; 150 / 1500 (thorough also 700 / 6000) copies of an ignorable "
